@@ -125,15 +125,17 @@ func coqLeaf(c *x509.Certificate, ca *x509.Certificate) string {
 // ---------------------------------------------------------------- the rig
 
 type rig struct {
-	dir          string
-	mitmCA       *authority
-	rogueCA      *authority
-	originCA     *authority
-	caFile       string
-	caKey        string
-	originCAFile string
-	origins      map[string]*origin // kind -> origin on 127.0.0.1
-	origin6      *origin            // valid origin on [::1]
+	dir           string
+	mitmCA        *authority
+	rogueCA       *authority
+	originCA      *authority
+	originCA2     *authority // a second, unrelated CA: only the proxy "onlyB" is configured with it
+	originCA2File string
+	caFile        string
+	caKey         string
+	originCAFile  string
+	origins       map[string]*origin // kind -> origin on 127.0.0.1
+	origin6       *origin            // valid origin on [::1]
 }
 
 type proxyOpt struct {
@@ -143,6 +145,7 @@ type proxyOpt struct {
 	CacheSize uint32
 	CacheTTL  time.Duration
 	Validity  time.Duration
+	CAB       bool // the Transport is configured with CA B only (not with the origin CA the others use)
 }
 
 type proxy struct {
@@ -174,6 +177,8 @@ func newRig(dir string) (*rig, error) {
 	r.originCA = newAuthority("verif origin CA")
 	r.caFile, r.caKey = r.mitmCA.writeFiles(dir, "mitm-ca")
 	r.originCAFile, _ = r.originCA.writeFiles(dir, "origin-ca")
+	r.originCA2 = newAuthority("verif origin CA B")
+	r.originCA2File, _ = r.originCA2.writeFiles(dir, "origin-ca-b")
 	now := time.Now()
 	good := []string{"localhost", "origin.test", "a.test", "skip.test", "example.com"}
 	lo := []net.IP{net.ParseIP("127.0.0.1"), net.ParseIP("::1")}
@@ -182,6 +187,7 @@ func newRig(dir string) (*rig, error) {
 		"expired":   r.originCA.mint(good, lo, now.Add(-2*time.Hour), now.Add(-time.Hour)),
 		"wrongname": r.originCA.mint([]string{"other.test"}, []net.IP{net.ParseIP("10.9.9.9")}, now.Add(-time.Hour), now.Add(time.Hour)),
 		"untrusted": r.rogueCA.mint(good, lo, now.Add(-time.Hour), now.Add(time.Hour)),
+		"validB":    r.originCA2.mint(good, lo, now.Add(-time.Hour), now.Add(time.Hour)),
 	}
 	for k, c := range certs {
 		o, err := newOrigin(k, "127.0.0.1:0", c)
@@ -233,6 +239,9 @@ func (r *rig) newProxy(opt proxyOpt) (*proxy, error) {
 	}
 	tcfg := forwarder.DefaultHTTPTransportConfig()
 	tcfg.TLSClientConfig.CACertFiles = []string{r.originCAFile}
+	if opt.CAB {
+		tcfg.TLSClientConfig.CACertFiles = []string{r.originCA2File}
+	}
 	tcfg.TLSClientConfig.Insecure = opt.Insecure
 	tcfg.DialConfig.RedirectFunc = redirect
 	tr, err := forwarder.NewHTTPTransport(tcfg)
@@ -463,7 +472,9 @@ type rcaseJSON struct {
 	Host     string `json:"host"`   // how the client names the origin: 127.0.0.1 | localhost | origin.test | [::1]
 	Scheme   string `json:"scheme"` // "" origin-form, else the scheme of an absolute-form target
 	XFP      string `json:"xfp"`
-	TLS      bool   `json:"tls"` // the client speaks TLS inside the CONNECT
+	TLS      bool   `json:"tls"`               // the client speaks TLS inside the CONNECT
+	Upgrade  bool   `json:"upgrade,omitempty"` // the request carries Connection: Upgrade / Upgrade: websocket
+	Proxy    string `json:"proxy,omitempty"`   // "" = the proxy configured with the origin CA; "onlyB" = configured with CA B only
 }
 
 var reqID atomic.Int64
@@ -506,6 +517,9 @@ func (r *rig) runRequestCase(p *proxy, c rcaseJSON) (string, map[string]any) {
 		if c.XFP != "" {
 			fmt.Fprintf(&sb, "X-Forwarded-Proto: %s\r\n", c.XFP)
 		}
+		if c.Upgrade {
+			sb.WriteString("Connection: Upgrade\r\nUpgrade: websocket\r\nSec-WebSocket-Version: 13\r\nSec-WebSocket-Key: dGhlIHNhbXBsZSBub25jZQ==\r\n")
+		}
 		sb.WriteString("\r\n")
 		if _, err := rw.Write([]byte(sb.String())); err != nil {
 			note = "write: " + err.Error()
@@ -521,7 +535,8 @@ func (r *rig) runRequestCase(p *proxy, c rcaseJSON) (string, map[string]any) {
 	}()
 	time.Sleep(20 * time.Millisecond) // let the origin's handler finish its bookkeeping
 	plain, secure, cookie := o.hits(path)
-	originOK := c.Origin == "valid"
+	// does the origin's certificate verify under the roots THIS proxy was configured with?
+	originOK := (c.Origin == "valid" && c.Proxy != "onlyB") || (c.Origin == "validB" && c.Proxy == "onlyB")
 	obs := map[string]any{"plain": plain, "tls": secure, "status": status, "note": note, "plaintext_cookie": cookie, "authority": authority}
 	return fmt.Sprintf("{| r_scheme := %s; r_xfp := %s; r_tls_session := %s; r_insecure := %s; r_origin_ok := %s; r_plain := %s; r_tls := %s; r_status := %s |}",
 		coqfmt.Str(c.Scheme), coqfmt.Str(c.XFP), coqfmt.Bool(c.TLS), coqfmt.Bool(c.Insecure), coqfmt.Bool(originOK),
@@ -624,13 +639,28 @@ func main() {
 						if !thorough && h != "127.0.0.1" && !(form.scheme == "" && (form.xfp == "" || form.xfp == "http")) {
 							continue
 						}
-						rcs = append(rcs, rcaseJSON{"request", insecure, ok, h, form.scheme, form.xfp, true})
+						rcs = append(rcs, rcaseJSON{Kind: "request", Insecure: insecure, Origin: ok, Host: h, Scheme: form.scheme, XFP: form.xfp, TLS: true})
 					}
 				}
 			}
+			// Upgrade requests (websocket) read from the intercepted session
+			for _, form := range []struct{ scheme, xfp string }{{"", ""}, {"", "http"}, {"http", ""}, {"https", "http"}} {
+				rcs = append(rcs, rcaseJSON{Kind: "request", Insecure: insecure, Origin: "valid", Host: "127.0.0.1", Scheme: form.scheme, XFP: form.xfp, TLS: true, Upgrade: true})
+			}
+			rcs = append(rcs, rcaseJSON{Kind: "request", Insecure: insecure, Origin: "expired", Host: "127.0.0.1", Scheme: "", XFP: "http", TLS: true, Upgrade: true})
 			// plaintext inside the tunnel: not an intercepted TLS session
-			rcs = append(rcs, rcaseJSON{"request", insecure, "valid", "127.0.0.1", "", "", false})
-			rcs = append(rcs, rcaseJSON{"request", insecure, "valid", "127.0.0.1", "", "https", false})
+			rcs = append(rcs, rcaseJSON{Kind: "request", Insecure: insecure, Origin: "valid", Host: "127.0.0.1"})
+			rcs = append(rcs, rcaseJSON{Kind: "request", Insecure: insecure, Origin: "valid", Host: "127.0.0.1", XFP: "https"})
+		}
+	}
+
+	if *replay == "" {
+		// two client configurations with different CA files in one process: each verifies origins
+		// against its own configuration only
+		for _, x := range []struct{ proxy, origin string }{{"onlyB", "validB"}, {"onlyB", "valid"}, {"", "validB"}, {"onlyB", "untrusted"}} {
+			for _, form := range []struct{ scheme, xfp string }{{"", ""}, {"https", ""}} {
+				rcs = append(rcs, rcaseJSON{Kind: "request", Origin: x.origin, Host: "127.0.0.1", Scheme: form.scheme, XFP: form.xfp, TLS: true, Proxy: x.proxy})
+			}
 		}
 	}
 
@@ -683,6 +713,13 @@ func main() {
 			}()
 		}
 		wg.Wait()
+		// a proxy configured with CA B only, built AFTER the ones configured with the other CA: what a
+		// client configuration trusts must not depend on what else was configured in the process
+		pb, err := r.newProxy(proxyOpt{Name: "onlyB", CAB: true})
+		if err != nil {
+			panic(err)
+		}
+		proxies["onlyB"] = pb
 		defer func() {
 			for _, p := range proxies {
 				p.close()
@@ -828,6 +865,9 @@ func main() {
 				pn := "all"
 				if c.Insecure {
 					pn = "insecure"
+				}
+				if c.Proxy != "" {
+					pn = c.Proxy
 				}
 				res[i], obs[i] = r.runRequestCase(proxies[pn], c)
 			}()
